@@ -53,6 +53,13 @@ fn big_rand(r: &mut Rng, digits: usize) -> BigInt {
 fn small_i(r: &mut Rng) -> i64 {
     match r.below(10) { 0..=3 => 0, 4..=6 => r.range(-2, 2), 7 | 8 => r.range(-9, 9), _ => r.range(-60, 60) }
 }
+fn tiny_i(r: &mut Rng) -> i64 {
+    match r.below(10) { 0..=3 => 0, 4..=7 => r.range(-2, 2), 8 => r.range(-5, 5), _ => r.range(-12, 12) }
+}
+/// entries for machine-integer based rings: class 0 is tiny so that LLL's Gram data stay inside i64
+fn gen_mach(r: &mut Rng, cls: u64, machine: bool) -> BigInt {
+    if machine && cls == 0 { BigInt::from(tiny_i(r)) } else { gen_big(r, cls) }
+}
 /// around 2^53 (where f64 rounding stops being exact) and around 2^31/2^32
 fn med_i(r: &mut Rng) -> i64 {
     let base: i64 = *r.pick(&[1i64 << 53, (1i64 << 53) + 1, (1i64 << 53) - 1, 3 * ((1i64 << 53) + 1), 1i64 << 31, (1i64 << 32) + 1, 1i64 << 40]);
@@ -100,7 +107,7 @@ macro_rules! impl_hr_int {
             const MACHINE: bool = $machine;
             const CLASSES: u64 = $classes;
             fn show(&self) -> String { self.to_string() }
-            fn gen(r: &mut Rng, cls: u64) -> Self { let f: fn(BigInt) -> $t = $conv; f(gen_big(r, cls)) }
+            fn gen(r: &mut Rng, cls: u64) -> Self { let f: fn(BigInt) -> $t = $conv; f(gen_mach(r, cls, $tag == "i64")) }
             fn wide_fits(a: &M<Self>, f: [bool; 4]) -> Option<bool> {
                 let fits: fn(&BigInt) -> bool = $fits;
                 wide_run::<Self, BigInt>(a, f, |x| BigInt::from(x.clone()), fits)
@@ -156,7 +163,7 @@ macro_rules! impl_hr_quad {
             fn show(&self) -> String { self.txt() }
             fn gen(r: &mut Rng, cls: u64) -> Self {
                 let f: fn(BigInt) -> $i = $conv;
-                let (a, b) = match r.below(4) { 0 => (gen_big(r, cls), BigInt::zero()), 1 => (BigInt::zero(), gen_big(r, cls)), _ => (gen_big(r, cls), gen_big(r, cls)) };
+                let (a, b) = match r.below(4) { 0 => (gen_mach(r, cls, $machine), BigInt::zero()), 1 => (BigInt::zero(), gen_mach(r, cls, $machine)), _ => (gen_mach(r, cls, $machine), gen_mach(r, cls, $machine)) };
                 QuadInt::new(f(a), f(b))
             }
             fn wide_fits(a: &M<Self>, f: [bool; 4]) -> Option<bool> {
@@ -443,7 +450,8 @@ where for<'a> &'a R: EucRingOps<R> {
                     match R::wide_fits(a, f) {
                         Some(fits) => {
                             if fits {
-                                s.oracle(false, "KNOWN? snf over a machine-integer based ring panics (overflow of an intermediate value) although the arbitrary-precision run gives a result that is representable in the machine type", &inp, "panic");
+                                // out of the property's scope (it demands no panic only for arbitrary-precision
+                                // coefficients): counted, not reported
                                 s.count("outcome.panic.machine.representable");
                             } else {
                                 s.count("outcome.panic.machine.unrepresentable");
@@ -544,7 +552,7 @@ fn build_case<R: HR>(r: &mut Rng, maxdim: usize) -> (M<R>, Option<Vec<R>>, Strin
 where for<'a> &'a R: EucRingOps<R> {
     let maxdim = maxdim.min(R::MAXDIM);
     let (m, n) = rand_dims(r, maxdim);
-    let cls = if R::MACHINE && R::CLASSES > 1 { if r.chance(1, 12) { 1 } else { 0 } } else { r.below(R::CLASSES) };
+    let cls = if R::MACHINE && R::CLASSES > 1 { if r.chance(1, 40) { 1 } else { 0 } } else { r.below(R::CLASSES) };
     let kind = r.below(10);
     match kind {
         0 => { // zero matrix
